@@ -396,6 +396,85 @@ static uint64_t esx_run(const struct esx_model *m) {
     return ns;
 }
 
+/* ---- cycle amplification: drift over many repetitions of a short pattern ------------------------------------------
+ * BFS to depth d decides every history of <= d operations; state that is right after every single operation but drifts
+ * over many (a counter, a free list, a growth policy, an index never reset) shows only after tens of operations.  For
+ * EVERY sequence c of 1..L operations of the model's alphabet: reset, then apply c `reps` times (an operation that is
+ * not enabled at its turn is skipped); apply() compares with the reference after each operation exactly as in the BFS,
+ * teardown() checks the balances at the end.  Exhaustive over the patterns; L and reps are the stated bounds.  L is the
+ * largest length <= Lmax for which the total number of operations stays within `budget`. */
+struct esx_cyc_ctx {
+    const struct esx_model *m;
+    int L, reps;
+};
+static void esx_cycle_item(uint64_t idx, void *vctx) {
+    struct esx_cyc_ctx *c = (struct esx_cyc_ctx *)vctx;
+    const struct esx_model *m = c->m;
+    uint64_t x = idx, p = (uint64_t)m->nops;
+    int l = 1;
+    while (x >= p) {
+        x -= p;
+        p *= (uint64_t)m->nops;
+        ++l;
+    }
+    int cyc[16];
+    for (int i = l - 1; i >= 0; --i) {
+        cyc[i] = (int)(x % (uint64_t)m->nops);
+        x /= (uint64_t)m->nops;
+    }
+    esx_cur = m;
+    esx_failed = 0;
+    esx_in_replay = 0;
+    {
+        size_t o = (size_t)snprintf(esx_token, sizeof(esx_token), "%s:*%d*", m->name, c->reps);
+        for (int i = 0; i < l; ++i) o += (size_t)snprintf(esx_token + o, sizeof(esx_token) - o, "%s%d", i ? "." : "", cyc[i]);
+        v_crumb("%s", esx_token);
+    }
+    m->reset();
+    uint64_t executed = 0;
+    for (int r = 0; r < c->reps && !esx_failed; ++r) {
+        uint64_t before = executed;
+        for (int i = 0; i < l && !esx_failed; ++i) {
+            if (!m->enabled(cyc[i])) continue;
+            m->apply(cyc[i]);
+            ++executed;
+        }
+        if (executed == before) break; /* nothing enabled: enabled() is a function of the state, which did not change */
+    }
+    V_COUNT("cycle_patterns", 1);
+    V_COUNT("cycle_operations", executed);
+    V_COUNT("transitions", executed);
+    if (!esx_failed && m->teardown) m->teardown();
+    if (esx_failed) V_COUNT("violating_transitions", 1);
+}
+static void esx_cycles(const struct esx_model *m, int Lmax, int reps, uint64_t budget) {
+    if (v_sh->viol_count || m->nops <= 0) return;
+    if (Lmax > 16) Lmax = 16;
+    int L = 0;
+    uint64_t total = 0, pw = 1;
+    for (int l = 1; l <= Lmax; ++l) {
+        pw *= (uint64_t)m->nops;
+        if ((total + pw) * (uint64_t)l * (uint64_t)reps > budget && l > 1) break;
+        total += pw;
+        L = l;
+        if (pw > budget) break;
+    }
+    struct esx_cyc_ctx c = {m, L, reps};
+    esx_cur = m;
+    char nm[160];
+    snprintf(nm, sizeof(nm), "%s", m->name);
+    v_pool_run(nm, total, esx_cycle_item, &c, 120);
+    v_worker = V_MAX_WORKERS;
+    V_MAXSTAT("max_cycle_length", (uint64_t)L);
+    V_MAXSTAT("max_cycle_repetitions", (uint64_t)reps);
+    v_out("INFO model %s cycles: every pattern of 1..%d operations (%" PRIu64 " patterns) x %d repetitions", m->name, L, total, reps);
+}
+
+/* default bounds: patterns of up to 4 operations, 32 repetitions, 3e6 (quick) / 3e7 (thorough) operations per model */
+#ifndef ESX_CYCLES
+#define ESX_CYCLES(m) esx_cycles((m), 4, 32, v_thorough() ? 30000000ull : 3000000ull)
+#endif
+
 /* ---- replay: token "<model>:<op.op.op>" ------------------------------------------------------- */
 static bool esx_token_is_for(const char *token, const char *model_name) {
     size_t n = strlen(model_name);
@@ -416,6 +495,35 @@ static void esx_replay_item(uint64_t idx, void *vctx) {
     m->reset();
     const char *p = c->ops;
     int step = 0;
+    if (*p == '*') { /* cycle token "*<reps>*a.b.c": the pattern repeated, operations not enabled at their turn are skipped */
+        int reps = atoi(p + 1), cyc[16], l = 0;
+        p = strchr(p + 1, '*');
+        p = p ? p + 1 : "";
+        while (*p && l < 16) {
+            cyc[l++] = atoi(p);
+            while (*p && *p != '.') ++p;
+            if (*p == '.') ++p;
+        }
+        for (int r = 0; r < reps && !esx_failed; ++r) {
+            for (int i = 0; i < l && !esx_failed; ++i) {
+                int o = cyc[i];
+                if (o < 0 || o >= m->nops) _exit(2);
+                if (!m->enabled(o)) continue;
+                char nm[96];
+                if (m->opname)
+                    m->opname(o, nm, sizeof(nm));
+                else
+                    snprintf(nm, sizeof(nm), "op%d", o);
+                if (r < 3 || r + 2 >= reps) v_out("INFO replay round %d step %d: %s", r, step, nm);
+                m->apply(o);
+                ++step;
+            }
+        }
+        if (esx_failed) v_out("INFO replay: violation at executed operation %d", step);
+        if (!esx_failed && m->teardown) m->teardown();
+        v_out("INFO replay finished: %s", esx_failed ? "VIOLATION reproduced" : "no violation");
+        return;
+    }
     while (*p) {
         int o = atoi(p);
         char nm[96];
